@@ -63,6 +63,12 @@ LABELARITH = [
     sym('dwOff', lambda l: L.data('dw %%offset(%s)' % l, ('<i', ('offset', l))), 'ref'),
     sym('packPos', lambda l: L.data('pack <I %%position(%s, %d)' % (l, B1), ('<I', ('position', l, B1))), 'ref'),
     sym('packOff', lambda l: L.data('pack <h %%offset(%s)' % l, ('<h', ('offset', l))), 'ref'),
+    # %position with the base written as an expression whose top-level operator binds weaker than '+'
+    sym('liPosShl', lambda l: L.li(5, ('position', l, 1 << 27, '1 << 27')), 'ref'),
+    sym('dwPosAnd', lambda l: L.data('dw %%position(%s, 0x08000fff & 0xfffff000)' % l, ('<I', ('position', l, 0x08000000))), 'ref'),
+    sym('dwPosOr', lambda l: L.data('dw %%position(%s, 0x08000000 | 0x100)' % l, ('<I', ('position', l, 0x08000100))), 'ref'),
+    sym('packPosShr', lambda l: L.data('pack <I %%position(%s, 0x10000000 >> 1)' % l, ('<I', ('position', l, 0x08000000))), 'ref'),
+    sym('luiHiXor', lambda l: I('lui', rd=5, imm=('hi', ('position', l, 0x08000000, '0x08000001 ^ 1'))), 'ref'),
     sym('lwL', lambda l: I('lw', rd=8, rs1=8, imm=('label', l)), 'ref'),
     sym('addiOff', lambda l: I('addi', rd=8, rs1=8, imm=('offset', l)), 'ref'),
 ]
